@@ -89,6 +89,13 @@ CHECKS["C27"] = ("vcheck", "proptest pairs of requests against a fresh limiter w
     "Generated search with shrinking; pairs are built as near-copies so that exactly one key component differs in most cases (counted in classes); table sizes 1/7/65537 so bucket collisions (which evict and send) are exercised.",
     "32-bit name-hash collisions ignored; pairs taking > 0.5 s retried.", "§4 C27")
 
+CHECKS["C23"] = ("vcheck", "round-trip against an independent pretty-printer: proptest record lists rendered with generated presentation choices (choice tape, shrinks to the plainest form); the expected parse is the generating list",
+    "Generated search with shrinking; 25 presentation features counted in classes; line numbers, owners, TTLs, classes, types and RDATA octets compared record by record.",
+    "Trusts vmodel::zonefile (printer emits only single-reading text; unit-tested) and RFC 1035 §3.4.2 bit order for WKS (known finding).", "§4 C23")
+CHECKS["C24"] = ("vcheck", "proptest token soups, random bytes and mutated valid zone files; validity predicate over everything the parser yields; watchdog for termination",
+    "Generated search with shrinking; no panic, nothing after the first error, every yielded record valid for its class/type under the independent validators; a case running > 60 s is re-run in a fresh process and reported as non-termination only if it stalls again.",
+    "Trusts vmodel::rdata::validate.", "§4 C24")
+
 NOT_YET = {}
 
 def main():
